@@ -1004,8 +1004,7 @@ def read_gonzalez(repo):
 def read_all(repo):
     S = read_state(repo)
     laws, skipped = read_laws(repo, S)
-    G = read_gonzalez(repo)
-    return {"state": S, "laws": laws, "skipped": skipped, "gonzalez": G}
+    return {"state": S, "laws": laws, "skipped": skipped}
 
 
 # ----------------------------------------------------------------------------------------
@@ -1098,3 +1097,189 @@ def emit_law_thms(L):
     out.append("Proof. intros %s %s H3. exact %s. Qed." % (ps, " ".join(IV), term))
     out.append("Print Assumptions %s_tables_correct." % n)
     return "\n".join(out) + "\n"
+
+
+# --- invariant tables -------------------------------------------------------------------
+from translator import pyexpr as _px
+
+
+def km_fac_dict(k):
+    n = len(PVARS)
+    if k < 3:
+        return {(0,) * n: Fraction(1)}
+    m = [0] * n
+    m[R2] = 1
+    return {tuple(m): Fraction(1, 2)}
+
+
+def inv_identities(rec):
+    """exact python-side decision of the derivative identities of one invariant record.
+       returns dict(cof1=[6 dicts], cof2=[[...]], bad=[(kind, j, k, remainder dict)])"""
+    I = pnorm(rec["pI"])
+    d1 = [pnorm(t) for t in rec["pd1"]]
+    bad = []
+    cof1, cof2 = [], []
+    for k in range(6):
+        diff = padd(d1[k], {m: -c for m, c in pmul(km_fac_dict(k), pdiff(I, k)).items()})
+        rem, cof = reduce_r2(diff)
+        cof1.append(cof)
+        if rem:
+            bad.append(("d1", None, k, rem))
+    for j in range(6):
+        row = []
+        for k in range(6):
+            h = pnorm(rec["pd2"][j][k])
+            diff = padd(h, {m: -c for m, c in pmul(km_fac_dict(k), pdiff(d1[j], k)).items()})
+            rem, cof = reduce_r2(diff)
+            row.append(cof)
+            if rem:
+                bad.append(("d2", j, k, rem))
+        cof2.append(row)
+    return {"cof1": cof1, "cof2": cof2, "bad": bad}
+
+
+def inv_name(key):
+    k, a = key
+    return "inv_I%d%s" % (k, "_" + "".join(a) if a else "")
+
+
+def emit_inv(M):
+    S = M["state"]
+    out = [HDR % S["file"],
+           "From Coq Require Import QArith List Ring_polynom.", "From EFLib Require Import PolyQ.",
+           "From EFP Require Import C18_InvDefs.", "Import ListNotations.", ""]
+    names = []
+    for key in sorted(S["inv"]):
+        rec = S["inv"][key]
+        ids = inv_identities(rec)
+        rec["ids"] = ids
+        nm = inv_name(key)
+        names.append(nm)
+
+        def lst(ts):
+            return "[" + "; ".join(_px.coq(t) for t in ts) + "]"
+        out.append("Definition %s : invtab := {| it_k := %d; it_dirs := %d;\n  it_I := %s;\n  it_d1 := %s;\n  it_d2 := [%s];\n  it_cof1 := %s;\n  it_cof2 := [%s] |}." % (
+            nm, key[0], len(key[1]), _px.coq(rec["pI"]), lst(rec["pd1"]),
+            ";\n    ".join(lst(r) for r in rec["pd2"]),
+            lst([poly_of_dict(c) for c in ids["cof1"]]),
+            ";\n    ".join(lst([poly_of_dict(c) for c in r]) for r in ids["cof2"])))
+    out.append("Definition all_invs : list invtab := [%s]." % "; ".join(names))
+    for d, idx in sorted(S["slices"].items()):
+        out.append("Definition slice_dim%d : list nat := [%s]." % (d, "; ".join("%d%%nat" % i for i in idx)))
+    for d, z in sorted(S["zeroed"].items()):
+        out.append("Definition dir_zeroed_dim%d : list nat := [%s]." % (d, "; ".join("%d%%nat" % i for i in z)))
+    # per law: invariants the law depends on whose d2IkdC term is left out of the tangent
+    for L in M["laws"].values():
+        absent = [k for k in INV if k in L["invs"] and k not in L["d2W1"]]
+        out.append("Definition %s_first_absent : list nat := [%s]." % (L["name"], "; ".join("%d%%nat" % k for k in absent)))
+    out.append("Definition all_first_absent : list (list nat) := [%s]." % "; ".join(L["name"] + "_first_absent" for L in M["laws"].values()))
+    return "\n".join(out) + "\n"
+
+
+# --- composite functions of C, reference state, objectivity per law ---------------------------
+CV = COMP + ["Ax", "Ay", "Az", "Bx", "By", "Bz"]
+R2T = ('sqrt', C(2))
+
+
+def _inv_trees(M, L):
+    """per invariant k: (I rtree, [6 first-derivative rtrees]) over CV (np.sqrt(2) kept), or None."""
+    S = M["state"]
+    res = {}
+    ks = set(L["invs"]) | set(k for (k, a) in L["dW"])
+    for k in INV:
+        if k in ks:
+            rec = state_invariant(S, k, L["invs"].get(k, _default_args(k)))
+            res[k] = (rec["I"], rec["d1"])
+    return res
+
+
+def emit_ref(M):
+    out = [HDR % "EasyFEA/Models/HyperElastic/_laws.py + _state.py",
+           "From Coq Require Import Reals Lra Psatz List.", "From EFP Require Import C18_tac C18_kinematics Gen_HyperLaws.",
+           "Open Scope R_scope.", "",
+           "Lemma rp_one : forall q, Rpower 1 q = 1.",
+           "Proof. intro q. unfold Rpower. rewrite ln_1, Rmult_0_r. apply exp_0. Qed.",
+           "Ltac exp_one := repeat match goal with |- context [exp ?a] => replace (exp a) with 1 by (symmetry; transitivity (exp 0); [ f_equal; field | apply exp_0 ]) end.",
+           "Ltac refsolve := repeat (rewrite ?rp_one, ?sqrt_1, ?ln_1); exp_one; field.", ""]
+    ident = {"cxx": ONE, "cyy": ONE, "czz": ONE, "cyz": ZERO, "cxz": ZERO, "cxy": ZERO}
+    refI = {1: "3", 2: "3", 3: "1", 4: "1", 6: "1", 8: "0"}
+    for L in M["laws"].values():
+        n = L["name"]
+        ps = " ".join(L["params"])
+        T = _inv_trees(M, L)
+        cvsig = "(%s : R)" % " ".join(CV)
+        Iarg = " ".join(coqR(T[k][0]) if k in T else "0" for k in INV)
+        out.append("(* ---- %s as a function of the components of C (and of the unit directions A, B) *)" % n)
+        out.append("Definition %s_W_C (%s : R) %s : R := %s_W %s %s." % (n, ps, cvsig, n, ps, Iarg))
+        for m in range(6):
+            terms = ["2 * %s_S%d %s %s * %s" % (n, k, ps, Iarg, coqR(T[k][1][m])) for k in INV if k in T]
+            out.append("Definition %s_stress%d (%s : R) %s : R := %s." % (n, m, ps, cvsig, " + ".join(terms)))
+        out.append("Definition %s_W_F (%s : R) (F : M3) (%s : R) : R :=\n  %s_W_C %s (m11 (Cof F)) (m22 (Cof F)) (m33 (Cof F)) (m23 (Cof F)) (m13 (Cof F)) (m12 (Cof F)) %s."
+                   % (n, ps, " ".join(CV[6:]), n, ps, " ".join(CV[6:])))
+        out.append("Theorem %s_objectivity : forall %s Q F %s, mmul (mtr Q) Q = mid3 ->\n  %s_W_F %s (mmul Q F) %s = %s_W_F %s F %s."
+                   % (n, ps, " ".join(CV[6:]), n, ps, " ".join(CV[6:]), n, ps, " ".join(CV[6:])))
+        out.append("Proof. intros. unfold %s_W_F. now rewrite objectivity_C. Qed." % n)
+        # scalar facts at the reference invariants
+        free = ["u%d" % k for k in INV if k not in T]
+        ra = " ".join(refI[k] if k in T else "u%d" % k for k in INV)
+        iso = " + ".join(x for x in ["%s_S1 %s %s" % (n, ps, ra), "2 * %s_S2 %s %s" % (n, ps, ra), "%s_S3 %s %s" % (n, ps, ra)])
+        out.append("Lemma %s_ref_scalars : forall %s %s,\n  %s_W %s %s = 0 /\\ %s = 0 /\\ %s_S4 %s %s = 0 /\\ %s_S6 %s %s = 0 /\\ %s_S8 %s %s = 0."
+                   % (n, ps, " ".join(free), n, ps, ra, iso, n, ps, ra, n, ps, ra, n, ps, ra))
+        out.append("Proof. intros. unfold %s. repeat split; refsolve. Qed." % ", ".join(["%s_W" % n] + ["%s_S%d" % (n, k) for k in INV]))
+        # composite theorem
+        hyps = []
+        if 4 in T:
+            hyps.append("Ax * Ax + Ay * Ay + Az * Az = 1")
+        if 6 in T:
+            hyps.append("Bx * Bx + By * By + Bz * Bz = 1")
+        if 8 in T:
+            hyps.append("Ax * Bx + Ay * By + Az * Bz = 0")
+        hy = "".join(h + " ->\n  " for h in hyps)
+        ia = "1 1 1 0 0 0 " + " ".join(CV[6:])
+        concl = " /\\\n  ".join(["%s_W_C %s %s = 0" % (n, ps, ia)] + ["%s_stress%d %s %s = 0" % (n, m, ps, ia) for m in range(6)])
+        out.append("Theorem %s_reference_state : forall %s %s,\n  %s%s." % (n, ps, " ".join(CV[6:]), hy, concl))
+        pf = ["intros %s %s%s." % (ps, " ".join(CV[6:]), "".join(" H%d" % i for i in range(len(hyps))))]
+        pf.append("destruct (%s_ref_scalars %s %s) as [HW [Hiso [H4 [H6 H8]]]]." % (n, ps, " ".join("0" for k in INV if k not in T)))
+        pf.append("unfold %s_W_C, %s." % (n, ", ".join("%s_stress%d" % (n, m) for m in range(6))))
+        unused = [k for k in INV if k not in T]
+        if unused:
+            pf.append("unfold %s in *." % ", ".join("%s_S%d" % (n, k) for k in unused))
+        for k in INV:
+            if k in T:
+                e = coqR(subst(T[k][0], ident))
+                by = "ring" if k < 4 else "nra"
+                pf.append("replace %s with %s by %s." % (e, refI[k], by))
+        pf.append("repeat split; [ exact HW | .. ]; nra.")
+        out.append("Proof.\n  " + "\n  ".join(pf) + "\nQed.")
+        out.append("Print Assumptions %s_objectivity.\nPrint Assumptions %s_reference_state.\n" % (n, n))
+    # hypotheses of the anisotropic reference theorem are satisfiable
+    out.append("Example unit_orthogonal_directions_exist : let Ax := 1 in let Ay := 0 in let Az := 0 in let Bx := 0 in let By_ := 1 in let Bz := 0 in\n  Ax * Ax + Ay * Ay + Az * Az = 1 /\\ Bx * Bx + By_ * By_ + Bz * Bz = 1 /\\ Ax * Bx + Ay * By_ + Az * Bz = 0.")
+    out.append("Proof. simpl. repeat split; ring. Qed.")
+    return "\n".join(out) + "\n"
+
+
+# ----------------------------------------------------------------------------------------
+# midpoint scheme lines of _simu.py (hypotheses H-update of C18_energy.v)
+# ----------------------------------------------------------------------------------------
+def read_midpoint(repo):
+    path = os.path.join(repo, "EasyFEA", "Simulations", "_simu.py")
+    mod = ast.parse(open(path).read())
+    fn = [n for n in ast.walk(mod) if isinstance(n, ast.FunctionDef) and n.name == "_Solver_Evaluate_u_v_a_for_time_scheme"]
+    if len(fn) != 1:
+        raise TranslateError("_simu.py: _Solver_Evaluate_u_v_a_for_time_scheme not found")
+    branch = None
+    for n in ast.walk(fn[0]):
+        if isinstance(n, ast.If) and ast.unparse(n.test).replace(" ", "") == "self.algo==AlgoType.midpoint":
+            branch = n.body
+    if branch is None:
+        raise TranslateError("_simu.py: midpoint branch of _Solver_Evaluate_u_v_a_for_time_scheme not found")
+    got = {}
+    for st in branch:
+        if isinstance(st, ast.Assign) and len(st.targets) == 1 and isinstance(st.targets[0], ast.Name):
+            got[st.targets[0].id] = ast.unparse(st.value).replace(" ", "")
+    want = {"v_np1": "2/dt*(u_np1-u_n)-v_n", "a_np1": "2/dt*(v_np1-v_n)-a_n",
+            "u_t": "(u_np1+u_n)/2", "a_t": "(a_np1+a_n)/2"}
+    for k, v in want.items():
+        if got.get(k) != v:
+            raise TranslateError("_simu.py midpoint branch: %s = %s, expected %s" % (k, got.get(k), v))
+    return want
